@@ -28,18 +28,25 @@ SPEC = {
 }
 MANIFEST = {
     'text': "Kernel-checked theorems over a heap model of the device list in which a freed entry stays observable (every "
-            "dereference of a dead object is a Fault): for every history of messages, send outcomes, clock values and junk in "
-            "uninitialised memory no handler run faults, every occupied slot points to a live entry carrying that source, at most "
-            "one entry has a given non-zero NAME; the list refines the two-map specification `latest claim wins, displaced NAME "
-            "forgotten` (lookup by NAME gives the source of the latest undisplaced claim and lookup by that source the NAME); "
-            "the first product information after the binding and the latest PGN lists / configuration information are what the "
-            "getters report; list-updated is raised in every step that changes what is reported for a non-zero NAME. "
-            "Correspondence: a real tN2kDeviceList behind a mock node under ASan/UBSan against the model on exhaustive short "
-            "claim histories, a full 254-entry table with takeovers, and random histories (2..252 sources, NAME 0/all-ones, "
-            "moves, takeovers, re-claims, truncated claims, 126996/126998/126464 of all sizes, repeated with different field "
-            "sizes, malformed payloads, both send outcomes, clock origins around 2^31/2^32) with reference maps as oracle.",
+            "dereference of a dead object is a Fault). For EVERY history of delivered messages, send outcomes, clock values and "
+            "junk in uninitialised memory: no run of HandleMsg faults, every occupied slot points to a live entry carrying that "
+            "source and at most one entry has a given non-zero NAME (C18_one_entry_per_name); the list refines the two-map "
+            "specification `latest claim wins, displaced NAME forgotten` and, in the words of the property, the latest "
+            "undisplaced claim of a NAME is what FindDeviceByName / FindDeviceBySource return (C18_refines_map, "
+            "C18_latest_claim); a step raises list-updated or leaves unchanged what is reported for every non-zero NAME "
+            "(C18_updated_flag); the latest 126464 of each kind and the latest 126998 from a device's source are what the "
+            "getters return, for any previously stored sizes (C18_information_pgns, C18_information_conf: strings = what "
+            "GetVarStr leaves in exact-size buffers); the first 126996 after a claim is what is reported, except when the "
+            "claimed address already holds the NAME's own parked entry (C18_information_prod_partial + "
+            "C18_parked_entry_witness, open finding). Correspondence: a real tN2kDeviceList behind a mock node under "
+            "ASan/UBSan against the model on exhaustive short claim histories, a full 254-entry table with takeovers, and "
+            "random histories (2..252 sources, NAME 0/all-ones, moves, takeovers, re-claims, truncated claims, "
+            "126996/126998/126464 of all sizes, repeated with different field sizes, malformed payloads, both send outcomes, "
+            "clock origins around 2^31/2^32) with reference maps as oracle.",
     'design_ref': 'DESIGN.md section 4, C18',
-    'note': "Trusted: Lean kernel; hand transcription of N2kDeviceList.cpp (with the fix commits) validated only by differential "
-            "runs; C16 parser models; SendMsg and uninitialised memory as environment inputs; request pacing (N2kHasElapsed with "
-            "the 0 sentinel) is transcribed but its timing properties belong to C13.",
+    'note': "Trusted: Lean kernel; hand transcription of N2kDeviceList.cpp (with the four fix commits) validated only by "
+            "differential runs; C16 parser models (what GetStr/GetVarStr leave in a buffer is C16's subject); SendMsg and "
+            "uninitialised memory as environment inputs; request pacing (N2kHasElapsed with the 0 sentinel, the uninitialised "
+            "LastMessageTime of a new reservation) is transcribed but its timing properties belong to C13. Open: "
+            "C18:parked-entry-prodinfo (displaced entries parked on a free slot).",
 }
